@@ -307,7 +307,16 @@ def obligations(tier):
         obs.append(ob_both_lists(30))
         obs.append(ob_generators(2, 8, 120))
         obs.append(ob_split_files_concrete())
+        # splitAudioOnTier crops the textgrid with Textgrid.crop: the cropped spans and entries are C06's subject
+        from harness import C06
+
+        obs.append(C06.ob_interval_crop(2, "truncated", True, "real", 120))
+        obs.append(C06.ob_interval_crop(2, "strict", True, "real", 120))
     else:
+        from harness import C06
+
+        obs.append(C06.ob_interval_crop(2, "truncated", True, "real", 600))
+        obs.append(C06.ob_interval_crop(2, "strict", True, "real", 600))
         obs.append(ob_split_files_concrete())
         for which in ("keep", "delete"):
             for k in (1, 2, 3):
